@@ -115,9 +115,39 @@ Section Put.
     - apply N.bits_inj. intros i. rewrite Hnew, N.ldiff_spec, blk_testbit. reflexivity.
   Qed.
 
+  (* per-tree counter sums: a small put adds the block size to the entry of its huge frame *)
+  Lemma lp_tree_range h :
+    (nn (h / THUGE g * THUGE g) <= nn h)%nat /\ (nn h + 1 <= nn (h / THUGE g * THUGE g) + thuge_nat g)%nat.
+  Proof.
+    pose proof (THUGE_pos g) as TP. pose proof (N.div_mod h (THUGE g) ltac:(lia)) as D.
+    pose proof (N.mod_lt h (THUGE g) ltac:(lia)) as M. pose proof (THUGE_nat g) as TN.
+    unfold nn. revert D M TN. generalize (h / THUGE g) (h mod THUGE g) (THUGE g) (thuge_nat g). intros; nia.
+  Qed.
+
+  Lemma lp_small_tree_free l f e e' rows' d :
+    ent l (f / HF g) = Some e -> e_free e' = e_free e + d ->
+    forall t, tree_free g (set_bf (set_ent l (f / HF g) e') (f / HF g) rows') t =
+              tree_free g l t + (if t =? f / TF g then d else 0).
+  Proof.
+    intros He Hd t. rewrite div_TF. set (h := f / HF g) in *.
+    destruct (lp_tree_range h) as (R1 & R2).
+    pose proof (tree_free_change g (set_bf (set_ent l h e') h rows') l (h / THUGE g) (nn h) 1 d R1 R2) as TC.
+    rewrite N.mul_1_l in TC. symmetry. apply TC. clear TC.
+    intros i. unfold set_bf, set_ent; cbn [ents]. rewrite efree_at_upd. unfold ind_range.
+    assert (Hlen : (nn h < length (ents l))%nat) by (apply nth_error_Some; unfold ent in He; congruence).
+    destruct (Nat.eqb_spec i (nn h)) as [->|Hn].
+    - destruct (Nat.ltb_spec (nn h) (length (ents l))); [|lia].
+      destruct (Nat.leb_spec (nn h) (nn h)); [|lia]. destruct (Nat.ltb_spec (nn h) (nn h + 1)); [|lia].
+      cbn [andb]. unfold efree_at. unfold ent in He. rewrite He. lia.
+    - cbn [andb]. destruct (Nat.leb_spec (nn h) i), (Nat.ltb_spec i (nn h + 1)); cbn [andb]; lia.
+  Qed.
+
   Definition put_outcome (l : lower) (f : N) (k : nat) : Prop :=
     (spec_put_enabled g (abs g l) f k = true /\
-     exists l', lower_put g l f k = (Ok tt, l') /\ LowerInv g l' /\ abs g l' = spec_put g (abs g l) f k)
+     exists l', lower_put g l f k = (Ok tt, l') /\
+                (LowerInv g l' /\ abs g l' = spec_put g (abs g l) f k) /\
+                frames l' = frames l /\
+                (forall t, tree_free g l' t = tree_free g l t + (if t =? f / TF g then pow2 k else 0)))
     \/ (spec_put_enabled g (abs g l) f k = false /\ lower_put g l f k = (Err EMemory, l)).
 
   (* the specification's enabledness for a small block, read on the huge frame's pair *)
@@ -186,6 +216,9 @@ Section Put.
       rewrite Ei.
       exists (set_bf (set_ent l (f / HF g) (0 + pow2 k)) (f / HF g) rows'). split.
       { f_equal. unfold set_ent, set_bf. cbn [frames bfs ents]. rewrite !lp_upd_upd. reflexivity. }
+      split; [|split; [reflexivity|]].
+      2:{ apply (lp_small_tree_free l f e (0 + pow2 k) rows' (pow2 k) He).
+          unfold e_free. rewrite Hh, (lp_e_huge_false (0 + pow2 k)) by lia. reflexivity. }
       apply (lp_small_update l f k e rows (0 + pow2 k) rows'); try assumption.
       + intros i. rewrite Pnew, Hfull, Hh. reflexivity.
       + rewrite (lp_clear_count full rows' _ _ Hokf Hok' Pset Pnew).
@@ -205,6 +238,9 @@ Section Put.
           rewrite ent_set_bf, He. unfold e_inc. rewrite Hh, Ef. cbn [negb andb].
           destruct (N.leb_spec (e + pow2 k) (HF g)); [|lia].
           exists (set_bf (set_ent l (f / HF g) (e + pow2 k)) (f / HF g) rows'). split; [reflexivity|].
+          split; [|split; [reflexivity|]].
+          2:{ apply (lp_small_tree_free l f e (e + pow2 k) rows' (pow2 k) He).
+              rewrite Ef. unfold e_free. rewrite (lp_e_huge_false (e + pow2 k)) by lia. reflexivity. }
           apply (lp_small_update l f k e rows (e + pow2 k) rows'); try assumption.
           -- intros i. rewrite Pnew, Hh. cbn [orb].
              destruct (N.ltb_spec i (HF g)); [rewrite andb_true_r; reflexivity|].
@@ -306,6 +342,19 @@ Section Put.
           + assert (Hq' : h <= q < h + n) by lia.
             pose proof (LowerInv_no_bf g l _ _ Inv (Hold' q Hq') Hb). discriminate.
           + apply (LowerInv_no_bf g l _ _ Inv Hq Hb). }
+      assert (Htf : forall t, tree_free g l' t = tree_free g l t + (if t =? f / TF g then pow2 k else 0)).
+      { intros t. rewrite div_TF. fold h.
+        pose proof (THUGE_pos g) as TP. pose proof (N.div_mod h (THUGE g) ltac:(lia)) as D.
+        pose proof (THUGE_nat g) as TN.
+        pose proof (tree_free_change g l' l (h / THUGE g) (nn h) (nn n) (HF g)) as TC.
+        replace (N.of_nat (nn n) * HF g) with (pow2 k) in TC by (unfold nn; rewrite N2Nat.id; exact Ek).
+        symmetry. apply TC; clear TC.
+        - unfold nn. revert D. generalize (h / THUGE g) (h mod THUGE g) (THUGE g). intros; nia.
+        - unfold nn. revert D Hth TN. generalize (h / THUGE g) (h mod THUGE g) (THUGE g) (thuge_nat g). intros; nia.
+        - intros i. unfold efree_at, ind_range. change (ents l') with es. rewrite Hnew.
+          destruct ((nn h <=? i)%nat && (i <? nn h + nn n)%nat) eqn:Ci.
+          + rewrite (Hold i) by lia. change (e_free MARK) with 0. unfold e_free. rewrite lp_e_huge_false by lia. lia.
+          + lia. }
       left. split.
       + (* enabled *)
         unfold spec_put_enabled. destruct (Nat.leb_spec (hord g) k) as [_|]; [|lia].
@@ -316,7 +365,7 @@ Section Put.
           destruct (N.ltb_spec i (frames l)); [reflexivity | lia].
         * apply all_whole_spec. fold h n. intros q Hq. rewrite abs_whole_testbit_gen. unfold whole_at.
           rewrite (Hold' _ Hq). destruct (Hbf _ Hq) as (rows & ->). reflexivity.
-      + exists l'. split; [reflexivity|]. split; [exact Inv'|].
+      + exists l'. split; [reflexivity|]. split; [|split; [reflexivity | exact Htf]]. split; [exact Inv'|].
         apply ospec_ext.
         * reflexivity.
         * intros i. rewrite (abs_alloc_testbit g WF l' Inv'), spec_put_alloc_testbit, (abs_alloc_testbit g WF l Inv).
@@ -371,7 +420,7 @@ Section Put.
   Theorem lower_put_ok l f k l' : put_pre l f k -> lower_put g l f k = (Ok tt, l') ->
     abs g l' = spec_put g (abs g l) f k /\ LowerInv g l'.
   Proof.
-    intros H E. destruct (lower_put_outcome l f k H) as [(_ & l2 & E2 & Inv2 & A2)|(_ & E2)]; rewrite E2 in E.
+    intros H E. destruct (lower_put_outcome l f k H) as [(_ & l2 & E2 & (Inv2 & A2) & _)|(_ & E2)]; rewrite E2 in E.
     - injection E as <-. split; assumption.
     - discriminate.
   Qed.
@@ -394,7 +443,26 @@ Section Put.
   Theorem lower_put_inv l f k : put_pre l f k -> LowerInv g (snd (lower_put g l f k)).
   Proof.
     intros H. pose proof H as (Inv & _).
-    destruct (lower_put_outcome l f k H) as [(_ & l2 & E2 & Inv2 & _)|(_ & E2)]; rewrite E2; assumption.
+    destruct (lower_put_outcome l f k H) as [(_ & l2 & E2 & (Inv2 & _) & _)|(_ & E2)]; rewrite E2; assumption.
+  Qed.
+
+  (* everything at once, in the shape of the `lf_put` field of `lower_facts` (LowerFacts.v);
+     `if t =? f / TF g then pow2 k else 0` is `delta t (f / TF g) (pow2 k)` *)
+  Theorem lower_put_facts l f k r l' : LowerInv g l -> (k <= tord g)%nat ->
+    aligned f k = true -> f + pow2 k <= frames l -> lower_put g l f k = (r, l') ->
+    match r with
+    | Ok _ => spec_put_enabled g (abs g l) f k = true /\
+              abs g l' = spec_put g (abs g l) f k /\ LowerInv g l' /\ frames l' = frames l /\
+              (forall t, tree_free g l' t = tree_free g l t + (if t =? f / TF g then pow2 k else 0))
+    | Err e => e = EMemory /\ l' = l /\ spec_put_enabled g (abs g l) f k = false
+    | Panic _ => False
+    end.
+  Proof.
+    intros Inv Hk Ha Hr E.
+    destruct (lower_put_outcome l f k (conj Inv (conj Ha (conj Hr Hk)))) as
+      [(En & l2 & E2 & (Inv2 & A2) & F2 & T2)|(En & E2)]; rewrite E2 in E.
+    - injection E as <- <-. auto.
+    - injection E as <- <-. auto.
   Qed.
 End Put.
 
@@ -438,3 +506,4 @@ Print Assumptions lower_put_ok.
 Print Assumptions lower_put_err.
 Print Assumptions lower_put_no_panic.
 Print Assumptions lower_put_inv.
+Print Assumptions lower_put_facts.
